@@ -6,6 +6,7 @@ was (provider mappings, annotation attributes).
  V|pid|fresh/long/bad|scope       a provider object (fresh dict per call / one long-lived dict / not a provider)
  S|pid|scope                      change what the provider returns
  D|fid|pid,-,self:pid,selfraw|name=alias:opt;name=(alias:opt+alias:opt)|ret|nested
+ I|newfid|fid|pid                 the method `fid` (declared with self:...) through another instance whose mapping is provider pid's
  C|fid|names;..|values;..|retvalue
 """
 from __future__ import annotations
@@ -86,6 +87,7 @@ def op_hist(*steps: str) -> str:
     prov_expected: dict = {}
     ann_objs: dict = {}
     ann_snap: dict = {}
+    body_of: dict = {}
     for st in steps:
         f = st.split("|")
         try:
@@ -126,12 +128,12 @@ def op_hist(*steps: str) -> str:
                     body += f"    DEPTH[0] += 1\n    try:\n        if DEPTH[0] < 4:\n            F_{nested}({', '.join(names)})\n    finally:\n        DEPTH[0] -= 1\n"
                 body += "    if RAISE[0]:\n        raise BodyError()\n    return RET[0]\n"
                 if pid.startswith("self:"):
-                    src = f"class K_{fid}:\n    def get_dltype_scope(self):\n        return PROV_{pid[5:]}.get_dltype_scope()\n"
-                    if isinstance(provs.get(pid[5:]), NotProv):
-                        src = f"class K_{fid}:\n    pass\n"
+                    src = f"class K_{fid}:\n    def __init__(self, prov):\n        self.prov = prov\n"
+                    if not isinstance(provs.get(pid[5:]), NotProv):
+                        src += "    def get_dltype_scope(self):\n        return self.prov.get_dltype_scope()\n"
                     src += f"    @dltype.dltyped('self')\n    def f(self{', ' if sig else ''}{sig}){rets}:\n"
                     src += "".join("    " + l + "\n" for l in body.splitlines())
-                    src += f"F_{fid} = K_{fid}().f\n"
+                    src += f"F_{fid} = K_{fid}(PROV_{pid[5:]}).f\n"
                 else:
                     dec = "" if pid == "-" else ("'self'" if pid == "selfraw" else f"PROV_{pid}")
                     src = f"@dltype.dltyped({dec})\ndef F_{fid}({sig}){rets}:\n{body}"
@@ -142,6 +144,12 @@ def op_hist(*steps: str) -> str:
                 except Exception as e:  # noqa: BLE001
                     outs.append("decor pyexc " + type(e).__name__)
                     ns[f"F_{fid}"] = None
+            elif f[0] == "I":
+                # another instance of the class of method `base`, with its own provider
+                new, base, pid = f[1:4]
+                K = ns.get(f"K_{base}")
+                ns[f"F_{new}"] = K(provs[pid]).f if K is not None and ns.get(f"F_{base}") is not None else None
+                body_of[new] = body_of.get(base, base)
             elif f[0] == "C":
                 fid, names, vals, ret = f[1:5]
                 F = ns.get(f"F_{fid}")
@@ -159,7 +167,7 @@ def op_hist(*steps: str) -> str:
                     end = "bodyraised"
                 except Exception as e:  # noqa: BLE001
                     end = show_report(e)
-                calls = sum(1 for e in EVENTS if e == ("body", fid))
+                calls = sum(1 for e in EVENTS if e == ("body", body_of.get(fid, fid)))
                 # outermost activation only (a recursive nested call re-enters the same body)
                 if calls > 1:
                     calls = 1
